@@ -28,7 +28,7 @@ Definition obs (r : gres (go_vmm_world * option string)) :=
 Definition mobs (r : R (st * N)) := match r with Ok (s', e) => Some (e, cr3 s', digest s') | Stray => None end.
 
 Example C05_setup_kernel_is_translation_nonvacuous :
-  OFF < two64 /\ last (boot 0 full) < two64 /\ Forall K.sec_ok secs /\ K.fuel_ok 8 secs (boot 0 full).
+  OFF < two64 /\ last (boot 0 full) < two64 /\ Forall K.sec_ok secs /\ K.fuel_ok 8 OFF secs (boot 0 full).
 Proof.
   split; [reflexivity|]. split; [reflexivity|]. split.
   - repeat constructor; reflexivity.
@@ -39,7 +39,7 @@ Qed.
     with fuel 8 - the null entry is never visited and needs none (its page count `size - 1` would be 2^52) *)
 Definition null_secs : list section := (0, 0, 0) :: secs.
 Example C05_null_section_table_nonvacuous :
-  OFF < two64 /\ last (boot 0 full) < two64 /\ Forall K.sec_ok null_secs /\ K.fuel_ok 8 null_secs (boot 0 full)
+  OFF < two64 /\ last (boot 0 full) < two64 /\ Forall K.sec_ok null_secs /\ K.fuel_ok 8 OFF null_secs (boot 0 full)
   /\ K.sec_n 0 0 = 2 ^ 52
   /\ (match go_vmm_setupPDTForKernel 8 (mk_go_vmm_world [] (boot 0 full)) OFF K.o_kactivate K.o_kinit K.o_kmap M.o_alloc K.o_translate (K.nonempty null_secs)
       with GOk (w, e) => Some (e, length (f_world_trace w)) | _ => None end) = Some (None, 7%nat).
@@ -89,7 +89,7 @@ Example setup_reserved_unmapped_run :
   (match run s with GOk (w, e) => Some (e, hd K.ev_alloc (f_world_trace w), cr3 (f_world_mem w)) | _ => None end)
   = Some (Some "ErrInvalidMapping"%string, K.ev_translate (vmm_tempMappingAddr - 0x1000), 0x100000)
   /\ (match setup_kernel OFF secs s with Ok (_, e) => Some e | Stray => None end) = Some E_INVALID
-  /\ K.fuel_ok 8 secs s.
+  /\ K.fuel_ok 8 OFF secs s.
 Proof.
   split; [vm_compute; reflexivity|]. split; [vm_compute; reflexivity|].
   split; [vm_compute; repeat constructor; vm_compute; lia | vm_compute; lia].
@@ -100,26 +100,22 @@ Example setup_fuel_run : run (boot 0 full) <> GFuel /\
   go_vmm_setupPDTForKernel 3 (mk_go_vmm_world [] (boot 0 full)) OFF K.o_kactivate K.o_kinit K.o_kmap M.o_alloc K.o_translate (K.nonempty secs) = GFuel.
 Proof. split; [vm_compute; discriminate | vm_compute; reflexivity]. Qed.
 
-(** ---- [audit A] a table shaped like a real kernel's: hypotheses discharged together.  Note the over-demand: [K.fuel_ok]
-    asks fuel above the page count of EVERY non-empty section, also of the non-alloc ones (address 0 < kernel offset) whose
-    page loop never runs - fuel 64 fails the hypothesis for the 64-page section at address 0 although the function itself
-    finishes with fuel 8.  Satisfiable (fuel is a nat), hence not vacuous, but stronger than needed. ---- *)
+(** ---- [audit A, repaired] a table shaped like a real kernel's: hypotheses discharged together, with the SMALL fuel the
+    function needs: [K.fuel_ok] no longer counts the non-alloc sections at address 0 (64 and 28 pages) that the closure
+    skips; the mapped sections are exactly the two at or above the offset. ---- *)
 (* shape of a real kernel ELF table: null entry, alloc sections at/above the offset, and NON-ALLOC sections
    (.symtab/.strtab/.debug: address 0, large size) that the closure skips at `secAddress < kernelPageOffset` *)
 Definition real_secs : list section :=
   (0, 0, 0) :: secs ++ [(0, 0, 0x1c000); (0, 0, 0x40000); (0, 0, 0x11)].
 
 Example C05_setup_kernel_is_translation_real_input :
-  OFF < two64 /\ last (boot 0 full) < two64 /\ Forall K.sec_ok real_secs /\ K.fuel_ok 70 real_secs (boot 0 full)
-  /\ ~ K.fuel_ok 64 real_secs (boot 0 full)
+  OFF < two64 /\ last (boot 0 full) < two64 /\ Forall K.sec_ok real_secs /\ K.fuel_ok 8 OFF real_secs (boot 0 full)
+  /\ K.mapped OFF real_secs = [(0x6, OFF + 0x100800, 0x2800); (0x3, OFF + 0x200000, 0x1000)]
+  /\ K.sec_n 0 0x40000 = 64
   /\ (match go_vmm_setupPDTForKernel 8 (mk_go_vmm_world [] (boot 0 full)) OFF K.o_kactivate K.o_kinit K.o_kmap M.o_alloc K.o_translate (K.nonempty real_secs)
       with GOk (w, e) => Some (e, length (f_world_trace w)) | _ => None end) = Some (None, 7%nat).
 Proof.
   split; [reflexivity|]. split; [reflexivity|]. split; [repeat constructor; reflexivity|].
   split; [split; [vm_compute; repeat constructor; vm_compute; lia | vm_compute; lia]|].
-  split.
-  - intros [H _]. vm_compute in H.
-    repeat match goal with H : Forall _ (_ :: _) |- _ => inversion H; clear H; subst end.
-    repeat match goal with H : (N.to_nat _ < _)%nat |- _ => vm_compute in H end. lia.
-  - vm_compute. reflexivity.
+  split; [vm_compute; reflexivity|]. split; vm_compute; reflexivity.
 Qed.
